@@ -193,7 +193,7 @@ func vpRunC19(base mocrelay.SimpleMiddlewareBase, connG, reqG prometheus.Gauge, 
 			vpAssert(err == nil && sm == nil, "C19.client-no-reply")
 			n := 0
 			for got := range cm {
-				vpAssert(vpSameObject(got, msg), "C19.client-unaltered")
+				vpAssert(vpUnchanged(got, msg), "C19.client-unaltered")
 				n++
 			}
 			vpAssert(n == 1, "C19.client-exactly-once")
@@ -225,7 +225,7 @@ func vpRunC19(base mocrelay.SimpleMiddlewareBase, connG, reqG prometheus.Gauge, 
 			vpAssert(err == nil, "C19.server-no-error")
 			n := 0
 			for got := range ch {
-				vpAssert(vpSameObject(got, msg), "C19.server-unaltered")
+				vpAssert(vpUnchanged(got, msg), "C19.server-unaltered")
 				n++
 			}
 			vpAssert(n == 1, "C19.server-exactly-once")
@@ -252,4 +252,76 @@ func vpRunC19(base mocrelay.SimpleMiddlewareBase, connG, reqG prometheus.Gauge, 
 		}
 	}
 	vpReach("end")
+}
+
+// vpUnchanged: got is the message want, unchanged. The same object is; a different object
+// of a different type or with different scalar fields is not; an equal-looking copy whose
+// nested event/filters are the same objects is; any other copy is outside what this
+// comparison can judge (the path ends INCONCLUSIVE rather than accusing a faithful copy).
+func vpUnchanged(got, want any) bool {
+	if vpSameObject(got, want) {
+		return true
+	}
+	sameFilters := func(a, b []*mocrelay.ReqFilter) bool {
+		if len(a) != len(b) {
+			return false
+		}
+		for i := range a {
+			if a[i] != b[i] {
+				vpUnsupported("a message was forwarded as a copy with copied filters: identity comparison cannot judge it")
+			}
+		}
+		return true
+	}
+	sameEvent := func(a, b *mocrelay.Event) bool {
+		if a != b {
+			vpUnsupported("a message was forwarded as a copy with a copied event: identity comparison cannot judge it")
+		}
+		return true
+	}
+	switch w := want.(type) {
+	case *mocrelay.ClientEventMsg:
+		g, ok := got.(*mocrelay.ClientEventMsg)
+		return ok && g != nil && sameEvent(g.Event, w.Event)
+	case *mocrelay.ClientAuthMsg:
+		g, ok := got.(*mocrelay.ClientAuthMsg)
+		return ok && g != nil && sameEvent(g.Event, w.Event)
+	case *mocrelay.ClientReqMsg:
+		g, ok := got.(*mocrelay.ClientReqMsg)
+		return ok && g != nil && g.SubscriptionID == w.SubscriptionID && sameFilters(g.ReqFilters, w.ReqFilters)
+	case *mocrelay.ClientCountMsg:
+		g, ok := got.(*mocrelay.ClientCountMsg)
+		return ok && g != nil && g.SubscriptionID == w.SubscriptionID && sameFilters(g.ReqFilters, w.ReqFilters)
+	case *mocrelay.ClientCloseMsg:
+		g, ok := got.(*mocrelay.ClientCloseMsg)
+		return ok && g != nil && g.SubscriptionID == w.SubscriptionID
+	case *mocrelay.ServerEOSEMsg:
+		g, ok := got.(*mocrelay.ServerEOSEMsg)
+		return ok && g != nil && g.SubscriptionID == w.SubscriptionID
+	case *mocrelay.ServerEventMsg:
+		g, ok := got.(*mocrelay.ServerEventMsg)
+		return ok && g != nil && g.SubscriptionID == w.SubscriptionID && sameEvent(g.Event, w.Event)
+	case *mocrelay.ServerNoticeMsg:
+		g, ok := got.(*mocrelay.ServerNoticeMsg)
+		return ok && g != nil && g.Message == w.Message
+	case *mocrelay.ServerOKMsg:
+		g, ok := got.(*mocrelay.ServerOKMsg)
+		return ok && g != nil && g.EventID == w.EventID && g.Accepted == w.Accepted && g.Msg == w.Msg && g.MsgPrefix == w.MsgPrefix
+	case *mocrelay.ServerAuthMsg:
+		g, ok := got.(*mocrelay.ServerAuthMsg)
+		return ok && g != nil && g.Challenge == w.Challenge
+	case *mocrelay.ServerClosedMsg:
+		g, ok := got.(*mocrelay.ServerClosedMsg)
+		return ok && g != nil && g.SubscriptionID == w.SubscriptionID && g.Msg == w.Msg && g.MsgPrefix == w.MsgPrefix
+	case *mocrelay.ServerCountMsg:
+		g, ok := got.(*mocrelay.ServerCountMsg)
+		if !ok || g == nil || g.SubscriptionID != w.SubscriptionID || g.Count != w.Count {
+			return false
+		}
+		if (g.Approximate == nil) != (w.Approximate == nil) {
+			return false
+		}
+		return g.Approximate == nil || *g.Approximate == *w.Approximate
+	}
+	return false
 }
